@@ -10,12 +10,17 @@ package main
 
 import (
 	"bytes"
+	"encoding/binary"
 	"encoding/hex"
 	"fmt"
 	"math/rand"
 	"os"
+	"os/exec"
 	"sort"
+	"strconv"
 	"strings"
+	"syscall"
+	"time"
 
 	"github.com/datastax/go-cassandra-native-protocol/compression/lz4"
 	"github.com/datastax/go-cassandra-native-protocol/compression/snappy"
@@ -1103,8 +1108,333 @@ func frameCase(algo string, v primitive.ProtocolVersion, q string) (ok bool, det
 	return true, fmt.Sprintf("compressed frame %d bytes, plain %d bytes", b1.Len(), b2.Len())
 }
 
+// ---------------------------------------------------------------- malformed (C04: decoders never panic, fault or hang)
+//
+//	harness-seg malformed <n> [thorough]
+//
+// Structure-aware malformed inputs for the REAL DecodeSegment (nil compressor and lz4) and the real decompressors.
+// One JSON line per case: {"id","entry","input","outcome": ok|err|panic|timeout|oom, ...}.  Segment entries also carry
+// the decoded observables and the decompression oracle, in the shape of the `raw` records of mode c06, so that the
+// decoder model can be run on the same input (tools/lib/seglib.py malformed_segment_mismatches).
+
+func runEntry(entry string, in []byte) (outcome string, d decRes) {
+	switch entry {
+	case "segment":
+		d = decodeSeg("none", in)
+		return d.class, d
+	case "segment-lz4":
+		d = decodeSeg("lz4", in)
+		return d.class, d
+	}
+	outcome = "ok"
+	func() {
+		defer func() {
+			if e := recover(); e != nil {
+				outcome = "panic"
+			}
+		}()
+		var out bytes.Buffer
+		var err error
+		switch entry {
+		case "lz4-raw":
+			err = lz4.Compressor{}.Decompress(bytes.NewReader(in), &out)
+		case "lz4-len":
+			err = lz4.Compressor{}.DecompressWithLength(bytes.NewReader(in), &out)
+		case "snappy-len":
+			err = snappy.Compressor{}.DecompressWithLength(bytes.NewReader(in), &out)
+		}
+		if err != nil {
+			outcome = "err"
+		}
+	}()
+	return outcome, d
+}
+
+// needsChild: inputs whose declared length would make the library allocate gigabytes run in a child process with an
+// address-space limit, so that an out-of-memory kill is classified as "oom" and does not take the harness down.
+func needsChild(entry string, in []byte) bool {
+	if entry != "snappy-len" {
+		return false
+	}
+	v, k := binary.Uvarint(in)
+	return k > 0 && v > 64<<20
+}
+
+func runChild(entry string, in []byte) string {
+	cmd := exec.Command(os.Args[0], "malformed-child", entry, hex.EncodeToString(in))
+	var so, se bytes.Buffer
+	cmd.Stdout, cmd.Stderr = &so, &se
+	if err := cmd.Start(); err != nil {
+		return "child-failed"
+	}
+	done := make(chan error, 1)
+	go func() { done <- cmd.Wait() }()
+	select {
+	case <-done:
+	case <-time.After(10 * time.Second):
+		_ = cmd.Process.Kill()
+		return "timeout"
+	}
+	out := strings.TrimSpace(so.String())
+	if out == "ok" || out == "err" || out == "panic" {
+		return out
+	}
+	if strings.Contains(se.String(), "out of memory") || strings.Contains(se.String(), "cannot allocate") {
+		return "oom"
+	}
+	return "crash"
+}
+
+func malformedChild(entry, hx string) {
+	_ = syscall.Setrlimit(syscall.RLIMIT_AS, &syscall.Rlimit{Cur: 3 << 30, Max: 3 << 30})
+	in, _ := hex.DecodeString(hx)
+	o, _ := runEntry(entry, in)
+	fmt.Println(o)
+}
+
+func malformed(n int, thorough bool, seed int64) {
+	rnd := rand.New(rand.NewSource(seed))
+	id := 0
+	emit := func(entry, what string, in []byte) {
+		id++
+		rec := J{"id": id, "entry": entry, "what": what, "input": hex.EncodeToString(in)}
+		if needsChild(entry, in) {
+			rec["outcome"] = runChild(entry, in)
+			rec["child"] = true
+			hlib.Emit(rec)
+			return
+		}
+		type res struct {
+			o string
+			d decRes
+		}
+		ch := make(chan res, 1)
+		go func() {
+			o, d := runEntry(entry, in)
+			ch <- res{o, d}
+		}()
+		select {
+		case r := <-ch:
+			rec["outcome"] = r.o
+			if strings.HasPrefix(entry, "segment") {
+				comp := "none"
+				if entry == "segment-lz4" {
+					comp = "lz4"
+				}
+				rec["comp"] = comp
+				rec["hex"] = rec["input"]
+				rec["dec"] = decJ(r.d, nil)
+				if comp == "lz4" && r.o != "panic" && len(in) >= 8 {
+					hv := uint64(0)
+					for i := 0; i < 5; i++ {
+						hv |= uint64(in[i]) << uint(8*i)
+					}
+					cl, ul := int(hv&0x1FFFF), int((hv>>17)&0x1FFFF)
+					if ul != 0 && cl != 0 && len(in) >= 8+cl {
+						var out bytes.Buffer
+						var err error
+						func() {
+							defer func() {
+								if e := recover(); e != nil {
+									err = fmt.Errorf("panic")
+								}
+							}()
+							err = lz4.Compressor{}.Decompress(bytes.NewReader(in[8:8+cl]), &out)
+						}()
+						rec["oracle_in"] = hex.EncodeToString(in[8 : 8+cl])
+						rec["oracle_ok"] = err == nil
+						rec["oracle_out"] = hex.EncodeToString(out.Bytes())
+					}
+				}
+			}
+		case <-time.After(5 * time.Second):
+			rec["outcome"] = "timeout"
+		}
+		hlib.Emit(rec)
+	}
+	randBytes := func(k int) []byte {
+		b := make([]byte, k)
+		rnd.Read(b)
+		return b
+	}
+	flip := func(in []byte) []byte {
+		c := append([]byte{}, in...)
+		if len(c) > 0 {
+			q := rnd.Intn(len(c) * 8)
+			c[q/8] ^= 1 << uint(q%8)
+		}
+		return c
+	}
+
+	// ---- segments
+	pl := expand(Desc{"lcg", 23, 5})
+	zl := expand(Desc{"zero", 300, 0})
+	for _, entry := range []string{"segment", "segment-lz4"} {
+		compressed := entry == "segment-lz4"
+		// every header length field forced, header CRC-24 valid; bodies: none, short, exact with good / bad CRC-32, long
+		vals := []uint64{0, 1, 2, 23, 131070, 131071}
+		for _, u := range vals {
+			cvals := []uint64{0}
+			if compressed {
+				cvals = vals
+			}
+			for _, c := range cvals {
+				for _, sc := range []bool{false, true} {
+					hdrOnly := refSegment(compressed, sc, u, c, nil)
+					hl := 6
+					if compressed {
+						hl = 8
+					}
+					hdr := hdrOnly[:hl]
+					emit(entry, "forced-lengths/no-body", hdr)
+					emit(entry, "forced-lengths/short-body", append(append([]byte{}, hdr...), randBytes(3)...))
+					want := int(u)
+					if compressed && c != 0 && u != 0 {
+						want = int(c)
+					} else if compressed && u == 0 {
+						want = int(c)
+					}
+					if want <= 4096 {
+						body := randBytes(want)
+						emit(entry, "forced-lengths/exact-body-good-crc", refSegment(compressed, sc, u, c, body))
+						bad := refSegment(compressed, sc, u, c, body)
+						bad[len(bad)-1] ^= 0x40
+						emit(entry, "forced-lengths/exact-body-bad-crc", bad)
+						emit(entry, "forced-lengths/body-no-crc", append(append([]byte{}, hdr...), body...))
+					} else {
+						emit(entry, "forced-lengths/declares-more-than-present", append(append([]byte{}, hdr...), randBytes(50)...))
+					}
+				}
+			}
+		}
+		// padding bits set (the only way to put "more than 131071" into the header word), valid CRC-24
+		for k := 0; k < 8; k++ {
+			hl, hv := 3, uint64(12)|uint64(1+rnd.Intn(63))<<18
+			if compressed {
+				hl, hv = 5, uint64(12)|uint64(12)<<17|uint64(1+rnd.Intn(31))<<35
+			}
+			h := leBytes(hv, hl)
+			in := append(append([]byte{}, h...), leBytes(uint64(refCrc24(h)), 3)...)
+			in = append(in, pl[:12]...)
+			in = append(in, leBytes(uint64(refCrc32(pl[:12])), 4)...)
+			emit(entry, "padding-bits-set", in)
+		}
+		// valid framing around garbage / damaged LZ4 blocks (the decompressor is reached)
+		if compressed {
+			good, _ := lz4Compress(zl)
+			for k := 0; k < 40+n/20; k++ {
+				var blk []byte
+				switch k % 4 {
+				case 0:
+					blk = randBytes(1 + rnd.Intn(40))
+				case 1:
+					blk = flip(good)
+				case 2:
+					blk = good[:rnd.Intn(len(good))]
+					if len(blk) == 0 {
+						blk = []byte{0xF0}
+					}
+				default:
+					blk = append([]byte{0xFF, 0xFF, 0xFF, 0xFF, 0xFF}, randBytes(rnd.Intn(6))...)
+				}
+				emit(entry, "valid-frame-damaged-block", refSegment(true, true, uint64(1+rnd.Intn(131071)), uint64(len(blk)), blk))
+			}
+		}
+		// truncation at every offset, bit flips, trailing bytes of real segments
+		comp := "none"
+		if compressed {
+			comp = "lz4"
+		}
+		for _, p := range [][]byte{{}, pl, zl} {
+			e := encodeSeg(comp, true, p)
+			for cut := 0; cut <= len(e.out); cut++ {
+				if len(e.out) > 60 && cut > 14 && cut < len(e.out)-8 && cut%9 != 0 {
+					continue
+				}
+				emit(entry, "truncate", e.out[:cut])
+			}
+			for k := 0; k < 30+n/20; k++ {
+				emit(entry, "bit-flip", flip(e.out))
+			}
+		}
+		for k := 0; k < n; k++ {
+			emit(entry, "random", randBytes(rnd.Intn(48)))
+		}
+	}
+
+	// ---- decompressors
+	goodBlocks := [][]byte{}
+	for _, x := range [][]byte{{}, {7}, pl, zl, expandClass("text", 500, 3), expand(Desc{"period", 4000, 9})} {
+		c, _ := lz4Compress(x)
+		goodBlocks = append(goodBlocks, c)
+	}
+	for _, blk := range goodBlocks {
+		for cut := 0; cut <= len(blk); cut++ {
+			emit("lz4-raw", "truncate", blk[:cut])
+		}
+		for k := 0; k < 20+n/20; k++ {
+			emit("lz4-raw", "bit-flip", flip(blk))
+		}
+	}
+	for _, blk := range [][]byte{{0xF0}, {0xF0, 0xFF}, {0xFF, 0xFF, 0xFF, 0xFF, 0xFF, 0xFF, 0xFF, 0xFF}, {0x0F, 0x00, 0x00}, {0x0F, 0x01, 0x00, 0xFF, 0xFF, 0xFF, 0xFF},
+		{0x10, 'a', 0x00, 0x00}, {0x10, 'a', 0xFF, 0xFF}, {0x1F, 'a', 0x01, 0x00, 0xFF, 0xFF, 0xFF, 0xFF, 0xFF, 0xFF, 0xFF, 0xFF, 0x00}, {0x00, 0x00}, {0x00, 0x00, 0x00}} {
+		emit("lz4-raw", "crafted-block", blk)
+	}
+	for k := 0; k < n; k++ {
+		emit("lz4-raw", "random", randBytes(rnd.Intn(64)))
+	}
+	be := func(v uint32) []byte { return []byte{byte(v >> 24), byte(v >> 16), byte(v >> 8), byte(v)} }
+	for _, dl := range []uint32{0, 1, 2, 1 << 16, 1<<31 - 1, 1 << 31, 1<<32 - 1} {
+		for _, body := range [][]byte{{}, {0}, {0x10, 'a'}, {0xF0, 0xFF}, randBytes(5), goodBlocks[2], goodBlocks[3]} {
+			emit("lz4-len", "declared-length", append(be(dl), body...))
+		}
+	}
+	for cut := 0; cut < 4; cut++ {
+		emit("lz4-len", "truncated-length", be(7)[:cut])
+	}
+	for k := 0; k < n; k++ {
+		emit("lz4-len", "random", randBytes(rnd.Intn(64)))
+	}
+	uv := func(v uint64) []byte {
+		b := make([]byte, binary.MaxVarintLen64)
+		return b[:binary.PutUvarint(b, v)]
+	}
+	sgood := [][]byte{gosnappy.Encode(nil, pl), gosnappy.Encode(nil, zl), gosnappy.Encode(nil, expandClass("text", 500, 3))}
+	for _, dl := range []uint64{0, 1, 2, 1 << 16, 1 << 26, 1<<31 - 1, 1 << 31, 1<<32 - 1, 1 << 32, 1<<63 - 1} {
+		for _, body := range [][]byte{{}, {0}, {0x00, 'a'}, {0xFC, 0xFF, 0xFF, 0xFF}, randBytes(5)} {
+			emit("snappy-len", "declared-length", append(uv(dl), body...))
+		}
+	}
+	for _, g := range sgood {
+		for cut := 0; cut <= len(g); cut++ {
+			emit("snappy-len", "truncate", g[:cut])
+		}
+		for k := 0; k < 20+n/20; k++ {
+			emit("snappy-len", "bit-flip", flip(g))
+		}
+	}
+	emit("snappy-len", "varint-overlong", []byte{0xFF, 0xFF, 0xFF, 0xFF, 0xFF, 0xFF, 0xFF, 0xFF, 0xFF, 0xFF, 0x01})
+	for k := 0; k < n; k++ {
+		emit("snappy-len", "random", randBytes(rnd.Intn(64)))
+	}
+}
+
 func main() {
 	defer hlib.Flush()
+	if len(os.Args) > 1 && os.Args[1] == "malformed-child" {
+		malformedChild(os.Args[2], os.Args[3])
+		return
+	}
+	if len(os.Args) > 1 && os.Args[1] == "malformed" {
+		n := 300
+		if len(os.Args) > 2 {
+			if v, err := strconv.Atoi(os.Args[2]); err == nil {
+				n = v
+			}
+		}
+		malformed(n, len(os.Args) > 3 && os.Args[3] == "thorough", hlib.Seed())
+		return
+	}
 	mode, tier := "c06", "quick"
 	if len(os.Args) > 1 {
 		mode = os.Args[1]
